@@ -1,6 +1,7 @@
 package main
 
 import (
+	"time"
 	"fmt"
 	"strings"
 	"go/ast"
@@ -132,6 +133,11 @@ func (m *Machine) call(fn *ssa.Function, args []Value, free []Value, depth int) 
 		panic("no body for " + fn.String())
 	}
 	m.stats["calls:"+fn.String()]++
+	if m.mathIn[fn.Name()] {
+		// harness stub whose integer arithmetic is over the mathematical integers (shadow state of an abstraction)
+		m.mathDepth++
+		defer func() { m.mathDepth-- }()
+	}
 	pdm, ok := m.pdcache[fn]
 	if !ok {
 		pdm = postdoms(fn)
@@ -253,12 +259,32 @@ func (m *Machine) runRegion(f *frame, b, prev, stop *ssa.BasicBlock) []exit {
 					f.dbg[id.Name] = x.X
 				}
 			default:
+				m.steps++
+				if m.steps&4095 == 0 && time.Now().After(m.deadline) {
+					panic("symbolic execution exceeded its time budget (exec_timeout_s)")
+				}
 				m.checkCut(f, in)
 				m.step(f, in)
 			}
 		}
 		prev, b = b, next
 	}
+}
+
+// feasible asks the solver whether a path condition is satisfiable together with the definitions so far
+// (spec option "prune"). Unknown or error = feasible: pruning only ever removes arms the solver proved dead.
+func (m *Machine) feasible(pc []*Cond) bool {
+	if m.concrete != nil {
+		return true
+	}
+	if m.pruneZ == nil || m.pruneZ.dead {
+		m.pruneZ = startSolver(solverFor(m), 10000)
+	}
+	o := &Obligation{pc: pc, defs: m.defs, vacuity: true}
+	sc, _, _ := m.script(o, false)
+	m.stats["feasibility_queries"]++
+	v, _ := m.pruneZ.query(sc, nil)
+	return v != "unsat"
 }
 
 type phiDone struct{ ph *ssa.Phi }
@@ -283,6 +309,10 @@ func (m *Machine) fork(f *frame, b *ssa.BasicBlock, c *Cond, stop *ssa.BasicBloc
 			g = cNot(c)
 		}
 		st.pc = append(st.pc, g)
+		if m.prune && !m.feasible(st.pc) {
+			m.stats["pruned_arms"]++
+			continue
+		}
 		m.cur = st
 		f.env = copyEnv(envBase)
 		func() {
@@ -484,9 +514,28 @@ func (m *Machine) mergeVals(gs []*Cond, vals []Value) Value {
 			}
 			return VInt{bv: r}
 		}
-		z := linSym(m.fresh("z"))
+		zn := m.fresh("z")
+		z := linSym(zn)
+		var lo, hi *big.Int
+		bounded := true
 		for i, v := range vals {
 			m.defs = append(m.defs, cImp(gs[i], cCmp("=", z, v.(VInt).lin)))
+			if l, h := m.interval(v.(VInt).lin); l != nil && bounded {
+				if lo == nil || l.Cmp(lo) < 0 {
+					lo = l
+				}
+				if hi == nil || h.Cmp(hi) > 0 {
+					hi = h
+				}
+			} else {
+				bounded = false
+			}
+		}
+		if bounded && lo != nil {
+			// the merged value lies in the hull of the alternatives (guards are exhaustive): interval bound for the
+			// cheap range pre-check and as a redundant lemma for the solver
+			m.bounds[zn] = [2]*big.Int{lo, hi}
+			m.defs = append(m.defs, cAnd(cCmp("<=", linConst(lo), z), cCmp("<=", z, linConst(hi))))
 		}
 		return VInt{lin: z}
 	case VBool:
